@@ -54,7 +54,7 @@ struct iora_udp_ghost {
            unsigned errorCb_calls; unsigned acceptCb_datas_before; TransportAddress acceptCb_addr; uint8_t dataCb_byte_gk; bool dataCb_sess_ok; MonoTime dataCb_time;
            unsigned connectCb_calls; SessionId connectCb_sid; bool connectCb_locked; } rx;
   struct { MonoTime now_first; unsigned now_calls; } misc;
-  struct { unsigned calls; int fd; uint8_t *buf; int buflen; int ret; size_t dgram_len; uint8_t byte_gk; socklen_t fromlen; uint8_t from_gb; iora_strid key; unsigned key_calls; bool key_of_source; } rc;
+  struct { unsigned calls; int fd; uint8_t *buf; int buflen; int ret; size_t dgram_len; uint8_t byte_gk; socklen_t fromlen; uint8_t from_gb; iora_strid key; unsigned key_calls; bool key_of_source; uint64_t key_host; uint16_t key_port; } rc;
 } G;
 /* close callback */
 #define G_closeCb_calls G.cl.closeCb_calls
@@ -390,9 +390,16 @@ static inline int iora_sys_recvfrom(int fd, uint8_t *buf, int len, int flags, so
   *from = a; *fl = al; G.rc.fromlen = al; G.rc.from_gb = GB < sizeof(sockaddr_storage) ? a.b[GB] : 0;
   if (GK < (size_t)r) { buf[GK] = nondet_u8(); G.rc.byte_gk = buf[GK]; }
   G.rc.ret = r; return r; }
-/* key(ss): getnameinfo(NUMERICHOST|NUMERICSERV) text "host:port" interned - a function of the address alone (A); here: some id, recorded */
+/* key(ss), interned.  Unit udp_key puts the REAL key() under contract: the key is `numeric host text ++ ':' ++ port digits` (KY1/KY2) and that shape is injective in
+ * (host text, port text) (lemma KL1-KL4).  Accordingly the key id is modelled as an injective PAIRING of (host text id, port number) - "different (host, port) =>
+ * different key" is no longer an assumption of the peer-index units but a computed fact resting on udp_key.  The empty key (getnameinfo failed) is id 0.
+ * Still assumed: getnameinfo's numeric host text / port digits are an injective function of the address; which host id / port a given address gets is arbitrary here. */
+#define IORA_KEY_PAIR(host, port) ((((iora_strid)(host)) << 16) | (iora_strid)(port))      /* host id in 1 .. 2^48-1, port 0 .. 65535 */
 static inline iora_strid UdpEngine_key(UdpEngine *self, sockaddr_storage ss)
-{ (void)self; IORA_BUMP(G.rc.key_calls); G.rc.key_of_source = (GB >= sizeof(sockaddr_storage) || ss.b[GB] == G.rc.from_gb); G.rc.key = nondet_u64(); return G.rc.key; }
+{ (void)self; IORA_BUMP(G.rc.key_calls); G.rc.key_of_source = (GB >= sizeof(sockaddr_storage) || ss.b[GB] == G.rc.from_gb);
+  if (nondet_bool()) { G.rc.key_host = 0; G.rc.key_port = 0; G.rc.key = 0; return 0; }
+  uint64_t h = nondet_u64(); uint16_t p = (uint16_t)nondet_u64(); IORA_ASSUME(h >= 1 && h < ((uint64_t)1 << 48));
+  G.rc.key_host = h; G.rc.key_port = p; G.rc.key = IORA_KEY_PAIR(h, p); return G.rc.key; }
 static inline TransportAddress UdpEngine_addressFromSockaddr(UdpEngine *self, sockaddr_storage ss) { (void)self; (void)ss; return nondet_u64(); }
 /* bumpSess(): sessionsCurrent++ and peak = max(peak, current) (its CAS loop is not under contract) */
 static inline void UdpEngine_bumpSess(UdpEngine *self)
